@@ -3,47 +3,62 @@ import PyCraft.Props.C01Buffer
 # C01 (extension) — the exact operation sequences `read_packet` and `Packet.write` issue
 
 `Props/C01Buffer` gives the two disciplines on a fresh buffer.  Here are the complete sequences of
-the real callers, with every intermediate `get_writable` of the reassembly loop and the
+the real callers, with every intermediate `get_writable` of the reassembly loop (two per further segment) and the
 compressed path's second episode (`reset`, `send(decompressed)`, `reset_cursor`), so that the byte
 lists the frame model (`Model/Frame.lean`) computes with are what the real buffer returns.
 -/
 namespace PyCraft.C01BufferFrame
 open PyCraft PyCraft.PBuf PyCraft.C01Buffer
 
-/-- The reassembly loop: after every `send` of a segment the loop asks `get_writable` for the length
-so far.  It sees the running concatenations, and the buffer ends as the concatenation of all segments
-with the cursor at the end. -/
-def loopOps (segs : List Bytes) : List Op := segs.flatMap (fun v => [.send v, .getw])
+/-- The operations of `packet_data.send(stream.read(length))` followed by the reassembly loop
+`while len(packet_data.get_writable()) < length: data = stream.read(length - len(packet_data.get_writable())); …;
+packet_data.send(data)`: the first segment `v` is sent unconditionally, then every further segment
+costs TWO `get_writable` calls (loop test, size of the next read), the `send`, and the loop test
+that follows.  (The correspondence run found the second `get_writable`: a first version of this
+model had one per segment and its traces did not match the real reader's.) -/
+def tailOps (vs : List Bytes) : List Op := vs.flatMap (fun v => [.getw, .send v, .getw])
+def loopOps (v : Bytes) (vs : List Bytes) : List Op := .send v :: .getw :: tailOps vs
 
-/-- Running concatenations `acc ++ s₁`, `acc ++ s₁ ++ s₂`, … -/
-def prefixes (acc : Bytes) : List Bytes → List Bytes
+/-- What the `get_writable` calls of the loop return: before and after every further segment. -/
+def seen (acc : Bytes) : List Bytes → List Bytes
   | [] => []
-  | v :: vs => (acc ++ v) :: prefixes (acc ++ v) vs
+  | v :: vs => acc :: (acc ++ v) :: seen (acc ++ v) vs
 
-theorem loop_sees_prefixes (segs : List Bytes) : ∀ s, s.pos = s.buf.length →
-    run s (loopOps segs) =
-      (⟨s.buf ++ segs.flatten, s.buf.length + segs.flatten.length⟩, prefixes s.buf segs) := by
-  induction segs with
-  | nil => intro s h; cases s; simp_all [run, loopOps, prefixes]
+theorem tail_sees (vs : List Bytes) : ∀ s, s.pos = s.buf.length →
+    run s (tailOps vs) =
+      (⟨s.buf ++ vs.flatten, s.buf.length + vs.flatten.length⟩, seen s.buf vs) := by
+  induction vs with
+  | nil => intro s h; cases s; simp_all [run, tailOps, seen]
   | cons v vs ih =>
     intro s h
-    have hs : (step s (.send v)) = (⟨s.buf ++ v, s.buf.length + v.length⟩, none) := by
+    have hs : (step ⟨s.buf, s.pos⟩ (.send v)) = (⟨s.buf ++ v, s.buf.length + v.length⟩, none) := by
       simp [step, h]
     have ih' := ih ⟨s.buf ++ v, s.buf.length + v.length⟩ (by simp)
-    simp only [loopOps, List.flatMap_cons, List.cons_append, List.nil_append, run, hs] at ih' ⊢
-    simp only [step]
-    rw [show List.flatMap (fun v => [Op.send v, Op.getw]) vs = loopOps vs from rfl] at ih' ⊢
+    simp only [tailOps, List.flatMap_cons, List.cons_append, List.nil_append, run] at ih' ⊢
+    simp only [step] at hs ⊢
+    rw [show List.flatMap (fun v => [Op.getw, Op.send v, Op.getw]) vs = tailOps vs from rfl] at ih' ⊢
+    simp only [tailOps] at ih'
+    simp only [tailOps, h, List.take_length, Nat.le_add_right, List.drop_eq_nil_of_le, List.append_nil]
     rw [ih']
-    simp [prefixes, List.append_assoc, Nat.add_assoc]
+    simp [seen, List.append_assoc, Nat.add_assoc]
+
+/-- The loop on a fresh buffer: the buffer ends as the concatenation of all segments with the cursor
+at the end, and the loop saw the running concatenations. -/
+theorem loop_sees_prefixes (v : Bytes) (vs : List Bytes) :
+    run init (loopOps v vs) =
+      (⟨v ++ vs.flatten, v.length + vs.flatten.length⟩, v :: seen v vs) := by
+  have h := tail_sees vs ⟨v, v.length⟩ rfl
+  simp only [loopOps, run, step, init, List.take_zero, List.nil_append, Nat.zero_add, List.drop_nil,
+    List.append_nil, h]
 
 /-- The uncompressed path of `read_packet` on a fresh buffer: reassembly loop, `reset_cursor`, then
 the sized reads of the packet parser — the parser reads the consecutive pieces of the frame body. -/
-theorem read_packet_plain (segs : List Bytes) (ns : List Nat) :
-    (run init (loopOps segs ++ [.rewind] ++ ns.map (fun n => .read (some n)))).2
-      = prefixes [] segs ++ chunks segs.flatten ns := by
-  rw [List.append_assoc, run_append, loop_sees_prefixes segs init rfl]
-  simp only [init, List.nil_append, List.length_nil, Nat.zero_add, List.cons_append, run, step]
-  rw [(reads_chunk ns ⟨segs.flatten, 0⟩).1]
+theorem read_packet_plain (v : Bytes) (vs : List Bytes) (ns : List Nat) :
+    (run init (loopOps v vs ++ [.rewind] ++ ns.map (fun n => .read (some n)))).2
+      = (v :: seen v vs) ++ chunks (v ++ vs.flatten) ns := by
+  rw [List.append_assoc, run_append, loop_sees_prefixes]
+  simp only [List.cons_append, List.nil_append, run, step]
+  rw [(reads_chunk ns ⟨v ++ vs.flatten, 0⟩).1]
   simp
 
 private theorem drop_take_length {α} (l : List α) (n : Nat) : l.drop (l.take n).length = l.drop n := by
@@ -71,31 +86,31 @@ VarInt), `read()` for the deflated rest, then `reset`, `send(d)`, `reset_cursor`
 reads.  The VarInt reader sees the first `k` bytes one at a time, zlib gets exactly the rest, and the
 parser reads the consecutive pieces of the inflated packet `d` — nothing of the compressed body
 survives the `reset`. -/
-theorem read_packet_compressed (segs : List Bytes) (k : Nat) (d : Bytes) (ns : List Nat) :
-    (run init (loopOps segs ++ [.rewind] ++ (List.replicate k 1).map (fun n => .read (some n))
+theorem read_packet_compressed (v : Bytes) (vs : List Bytes) (k : Nat) (d : Bytes) (ns : List Nat) :
+    (run init (loopOps v vs ++ [.rewind] ++ (List.replicate k 1).map (fun n => .read (some n))
         ++ [.read none, .reset, .send d, .rewind] ++ ns.map (fun n => .read (some n)))).2
-      = prefixes [] segs ++ chunks segs.flatten (List.replicate k 1)
-          ++ [(segs.flatten.drop ((chunks segs.flatten (List.replicate k 1)).flatten.length))]
+      = (v :: seen v vs) ++ chunks (v ++ vs.flatten) (List.replicate k 1)
+          ++ [((v ++ vs.flatten).drop ((chunks (v ++ vs.flatten) (List.replicate k 1)).flatten.length))]
           ++ chunks d ns := by
-  have e1 : loopOps segs ++ [Op.rewind] ++ (List.replicate k 1).map (fun n => Op.read (some n))
+  have e1 : loopOps v vs ++ [Op.rewind] ++ (List.replicate k 1).map (fun n => Op.read (some n))
         ++ [Op.read none, Op.reset, Op.send d, Op.rewind] ++ ns.map (fun n => Op.read (some n))
-      = loopOps segs ++ ([Op.rewind] ++ ((List.replicate k 1).map (fun n => Op.read (some n))
+      = loopOps v vs ++ ([Op.rewind] ++ ((List.replicate k 1).map (fun n => Op.read (some n))
         ++ ([Op.read none, Op.reset, Op.send d, Op.rewind] ++ ns.map (fun n => Op.read (some n))))) := by
     simp [List.append_assoc]
-  rw [e1, run_append, loop_sees_prefixes segs init rfl]
-  simp only [init, List.nil_append, List.length_nil, Nat.zero_add, List.cons_append, run, step]
-  rw [run_append, reads_state, (reads_chunk (List.replicate k 1) ⟨segs.flatten, 0⟩).1]
+  rw [e1, run_append, loop_sees_prefixes]
+  simp only [List.cons_append, List.nil_append, run, step]
+  rw [run_append, reads_state, (reads_chunk (List.replicate k 1) ⟨v ++ vs.flatten, 0⟩).1]
   simp only [List.drop_zero, Nat.zero_add, run, step, init, List.take_zero, List.nil_append,
     List.drop_nil]
   rw [(reads_chunk ns ⟨d ++ [], 0⟩).1]
   simp [List.append_assoc]
 
 -- non-vacuity: a frame arriving in three segments, plain and compressed
-example : (run init (loopOps [[5, 1], [2], [3, 4]] ++ [.rewind] ++ [1, 2, 9].map (fun n => .read (some n)))).2
-    = [[5, 1], [5, 1, 2], [5, 1, 2, 3, 4], [5], [1, 2], [3, 4]] := by decide
-example : (run init (loopOps [[0x81], [0x01, 7, 8]] ++ [.rewind]
+example : (run init (loopOps [5, 1] [[2], [3, 4]] ++ [.rewind] ++ [1, 2, 9].map (fun n => .read (some n)))).2
+    = [[5, 1], [5, 1], [5, 1, 2], [5, 1, 2], [5, 1, 2, 3, 4], [5], [1, 2], [3, 4]] := by decide
+example : (run init (loopOps [0x81] [[0x01, 7, 8]] ++ [.rewind]
       ++ (List.replicate 2 1).map (fun n => .read (some n))
       ++ [.read none, .reset, .send [9, 9, 9], .rewind] ++ [1, 5].map (fun n => .read (some n)))).2
-    = [[0x81], [0x81, 0x01, 7, 8], [0x81], [0x01], [7, 8], [9], [9, 9]] := by decide
+    = [[0x81], [0x81], [0x81, 0x01, 7, 8], [0x81], [0x01], [7, 8], [9], [9, 9]] := by decide
 
 end PyCraft.C01BufferFrame
